@@ -925,7 +925,7 @@ func corpusC03() []*Bundle {
 func init() {
 	register(&Property{
 		ID: "C03", Plain: true, Level: "exploration",
-		Rule:   "cases = rapid-generated tables (0-8 rows; grouping columns over {NULL, strings, numbers, look-alike mixed-type keys}; numeric columns with and without NULLs) x queries (1-3 grouping columns, subset of them selected, optional `*`, 0-5 aliased aggregates COUNT(*)/SUM/MIN/MAX/AVG incl. the same function on different columns, optional WHERE tree over NULL-free columns, optional HAVING tree over aggregates; or the whole-table all-aggregate form; optionally wrapped in a derived table / CTE, with LIMIT, as two CTEs with identically spelled aggregates, after a prelude query on the same document in the same process, with a second Exec of the same Query) plus a fixed corpus; each case is executed under 4 map-iteration orders chosen by the simulator (drawn rotate/random/mixed + sorted + reverse + random) and every execution must equal, as an exact sequence, a reference group-by computed by the driver, and all executions must be byte-identical to each other; non-trivial = a non-identity map order was applied; distinct = distinct case-file hash; plus grouping by a path (o.p), EXISTS..GROUP BY..HAVING leaves in WHERE, whole-table aggregates with the caller changing a variable between two Execs, tables of 70-220 rows with ~150 distinct keys, and GROUP BY over a join (run-to-run identity only)",
+		Rule:   "cases = rapid-generated tables (0-8 rows; grouping columns over {NULL, strings, numbers, look-alike mixed-type keys}; numeric columns with and without NULLs) x queries (1-3 grouping columns, subset of them selected, optional `*`, 0-5 aliased aggregates COUNT(*)/SUM/MIN/MAX/AVG incl. the same function on different columns, optional WHERE tree over NULL-free columns, optional HAVING tree over aggregates; or the whole-table all-aggregate form; optionally wrapped in a derived table / CTE, with LIMIT, as two CTEs with identically spelled aggregates, after a prelude query on the same document in the same process, with a second Exec of the same Query) plus a fixed corpus; each case is executed under 4 map-iteration orders chosen by the simulator (drawn rotate/random/mixed + sorted + reverse + random) and every execution must equal, as an exact sequence, a reference group-by computed by the driver, and all executions must be byte-identical to each other; non-trivial = a non-identity map order was applied; distinct = distinct case-file hash; plus grouping by a path (o.p), EXISTS..GROUP BY..HAVING leaves in WHERE, whole-table aggregates with the caller changing a variable between two Execs, tables of 70-220 rows with ~150 distinct keys, and GROUP BY over a join (run-to-run identity only); rows one level down in some documents only (FROM d.items over [[rows], NULL, [rows]]: one reference group-by per inner table), whole-table aggregates FROM dual, WHERE leaves on the grouping path, HAVING leaves written with the select-list alias of the aggregate, numeric keys held in different Go types",
 		Corpus: corpusC03, Gen: genC03, Eval: evalC03, QuickChecks: 500,
 		Assumptions: []string{
 			"value clauses are decided by model comparison on the sampled workload only; the simulator decides the run-to-run stability clause by controlling every map iteration order",
